@@ -214,8 +214,8 @@ func (k *keyedSession) finishUpdate(it *item, p proto.Message, op string, out []
 		s.mon.Count("update-error:" + status.Code(err).String())
 		s.obs("upderr", "ok")
 		k.drainAll()
-		if it.cur != nil {
-			k.get(it, nil) // rejected_frame
+		if it.cur != nil && !s.noDrain {
+			k.get(it, nil) // rejected_frame (not when a second write has run meanwhile: window)
 		}
 		return
 	}
@@ -384,6 +384,116 @@ func (k *keyedSession) twoWriters(it *item) {
 	s.obs("quiesce", verdict)
 }
 
+// window: one write of the item is parked before it has changed anything - an Update between its read and its commit
+// (gau.afterRead / gau.beforeLock), a Delete between its read and its re-validation (coll.delete.afterRead) - while a
+// second write runs to completion: an Update of the same item, an Update of ANOTHER item, a Delete of the item. The
+// parked write is released; both are judged as register writes one after the other, the second one first (the first one
+// first when the second was seen to wait for it). So: an Update overtaken by an Update that changed the item is rejected
+// (Aborted) and the item keeps the other value; overtaken by an Update of another item it is stored; overtaken by a
+// Delete it is rejected and the item stays deleted; a Delete overtaken by an Update deletes the updated item.
+func (k *keyedSession) window(it, other *item) {
+	s := k.session
+	type write struct {
+		it     *item
+		del    bool
+		req, p proto.Message
+		op     string
+		upd    callRes
+		dres   delRes
+	}
+	mk := func(it *item, del bool) *write {
+		w := &write{it: it, del: del}
+		if !del {
+			w.req, w.p, w.op = k.prepUpdate(it)
+		}
+		return w
+	}
+	run := func(w *write) {
+		if w.del {
+			w.dres = k.callDelete(w.it)
+		} else {
+			out, pm := s.call("Update"+k.t.X, w.req)
+			w.upd = callRes{out, pm}
+		}
+	}
+	finish := func(w *write, note string) {
+		if w.del {
+			w.dres.op += note
+			k.finishDelete(w.it, w.dres)
+		} else {
+			k.finishUpdate(w.it, w.p, w.op+note, w.upd.out, w.upd.pm)
+		}
+	}
+	var a, b *write
+	label := ""
+	switch v := s.r.Intn(4); {
+	case v == 0:
+		a, b, label = mk(it, false), mk(it, false), "update/update"
+	case v == 1 && other != nil:
+		a, b, label = mk(it, false), mk(other, false), "update/update-of-another-item"
+	case v == 2:
+		a, b, label = mk(it, true), mk(it, false), "delete/update"
+	default:
+		a, b, label = mk(it, false), mk(it, true), "update/delete"
+	}
+	points := []string{"gau.afterRead", "gau.beforeLock"}[s.r.Intn(2):][:1]
+	if a.del {
+		points = []string{"coll.delete.afterRead"}
+	}
+	parked, letGo, disarm := armYield(points...)
+	defer verifhook.Set(nil)
+	defer letGo()
+	doneA, doneB := make(chan struct{}), make(chan struct{})
+	go func() { run(a); close(doneA) }()
+	select {
+	case <-parked:
+	case <-doneA:
+		disarm()
+		s.mon.Count("kwindow-unreached:" + label)
+		finish(a, "")
+		return
+	case <-time.After(3 * time.Second):
+		s.obs("updpanic", s.violate("Update/hung", "a write did not return within 3 s", "a response", "nothing"))
+		return
+	}
+	go func() { run(b); close(doneB) }()
+	bWaited := false
+	select {
+	case <-doneB:
+	case <-time.After(250 * time.Millisecond):
+		bWaited = true
+	}
+	letGo()
+	for _, d := range []chan struct{}{doneA, doneB} {
+		select {
+		case <-d:
+		case <-time.After(3 * time.Second):
+			s.obs("updpanic", s.violate("Update/hung", "a write did not return within 3 s of being released", "a response", "nothing"))
+			return
+		}
+	}
+	verifhook.Set(nil)
+	s.mon.Count("kwindow-forced:" + label)
+	first, second := b, a
+	noteFirst := fmt.Sprintf(" [window %s@%s: ran while the write below was held before it had changed anything]", label, points[0])
+	noteSecond := fmt.Sprintf(" [window %s@%s: held while the write above ran]", label, points[0])
+	if bWaited {
+		first, second = a, b
+		noteFirst, noteSecond = fmt.Sprintf(" [window %s@%s: the other write waited for it]", label, points[0]), ""
+		s.mon.Count("kwindow-b-waited:" + label)
+	}
+	// both have returned: whatever the first one announced and whatever the second one announced is on its way already
+	s.noDrain = true
+	finish(first, noteFirst)
+	s.noDrain = false
+	if !s.failed {
+		finish(second, noteSecond)
+	}
+	if !s.failed && it.cur != nil {
+		k.get(it, nil)
+	}
+}
+
 // drainAll drains every stream: the streams of the written id get what they are owed, the streams of every
 // other id must stay silent (no cross-talk).
 func (k *keyedSession) drainAll() { k.session.drain(true) }
@@ -405,7 +515,18 @@ func (k *keyedSession) pull(it *item) {
 	}
 }
 
-func (k *keyedSession) delete(it *item) {
+// delRes is the outcome of a Delete: done (the item is gone), rejected (an error status), skipped (no way to delete), or a panic.
+type delRes struct {
+	op       string
+	done     bool
+	rejected string
+	pm       string
+}
+
+func (k *keyedSession) delete(it *item) { k.finishDelete(it, k.callDelete(it)) }
+
+// callDelete deletes the item with the service's Delete RPC, else with the model's Delete method.
+func (k *keyedSession) callDelete(it *item) delRes {
 	s := k.session
 	op := fmt.Sprintf("Delete%s(%s=%q)", k.t.X, k.t.keyField, it.key)
 	reportProgress(progress{Sid: s.sid, Step: s.step, Op: op, Trace: tailTrace(s.trace, 12)})
@@ -415,29 +536,43 @@ func (k *keyedSession) delete(it *item) {
 		setStr(req, k.t.keyField, it.key)
 		out, pm := s.call("Delete"+k.t.X, req.Interface())
 		if pm != "" {
-			s.obs("updpanic", s.violate("Delete/panic", "Delete panicked", "a response or an error status", pm))
-			return
+			return delRes{op: op, pm: pm}
 		}
 		if err, _ := out[1].Interface().(error); err != nil {
-			s.trace = append(s.trace, stepDesc{s.step, op, "error: " + status.Code(err).String()})
-			s.obs("upderr", "ok")
-			return
+			return delRes{op: op, rejected: status.Code(err).String()}
 		}
-	} else {
-		m := k.modelMethod("Delete")
-		if !m.IsValid() || m.Type().NumIn() < 1 || m.Type().In(0).Kind() != reflect.String {
-			return
+		return delRes{op: op, done: true}
+	}
+	m := k.modelMethod("Delete")
+	if !m.IsValid() || m.Type().NumIn() < 1 || m.Type().In(0).Kind() != reflect.String {
+		return delRes{op: op}
+	}
+	var outs []reflect.Value
+	if p, _ := lib.Catch(func() { outs = m.Call([]reflect.Value{reflect.ValueOf(it.key)}) }); p {
+		return delRes{op: op}
+	}
+	for _, o := range outs {
+		if err, ok := o.Interface().(error); ok && err != nil {
+			return delRes{op: op, rejected: err.Error()}
 		}
-		var outs []reflect.Value
-		if p, _ := lib.Catch(func() { outs = m.Call([]reflect.Value{reflect.ValueOf(it.key)}) }); p {
-			return
-		}
-		for _, o := range outs {
-			if err, ok := o.Interface().(error); ok && err != nil {
-				s.obs("upderr", "ok")
-				return
-			}
-		}
+	}
+	return delRes{op: op, done: true}
+}
+
+// finishDelete judges the outcome of a Delete: the item is gone and its streams end.
+func (k *keyedSession) finishDelete(it *item, r delRes) {
+	s := k.session
+	op := r.op
+	switch {
+	case r.pm != "":
+		s.obs("updpanic", s.violate("Delete/panic", "Delete panicked", "a response or an error status", r.pm))
+		return
+	case r.rejected != "":
+		s.trace = append(s.trace, stepDesc{s.step, op, "error: " + r.rejected})
+		s.obs("upderr", "ok")
+		return
+	case !r.done:
+		return
 	}
 	s.trace = append(s.trace, stepDesc{s.step, op, "deleted"})
 	s.mon.Count("keyed-delete")
@@ -477,6 +612,42 @@ func (k *keyedSession) delete(it *item) {
 		}
 	}
 	k.drainAll()
+}
+
+// listAll calls the service's collection-wide List RPC (a read) and then Gets every id the session knows: a read
+// changes no register - every live item still answers with its value, every deleted or unknown id is still NotFound.
+// What the listing contains is not judged here (C08/C15).
+func (k *keyedSession) listAll(ghost *item) {
+	s := k.session
+	if k.t.list == nil {
+		return
+	}
+	req := newMsg(k.t.list.Input())
+	setStr(req, "name", devName)
+	if s.r.Intn(2) == 0 {
+		setMask(req, "read_mask", s.randMask(k.t.resource, 0, true))
+	}
+	op := fmt.Sprintf("%s(%s)", k.t.list.Name(), txt(req.Interface()))
+	reportProgress(progress{Sid: s.sid, Step: s.step, Op: op, Trace: tailTrace(s.trace, 12)})
+	out, pm := s.call(string(k.t.list.Name()), req.Interface())
+	switch {
+	case pm != "":
+		s.trace = append(s.trace, stepDesc{s.step, op, "panic: " + pm})
+	case out[1].Interface() != nil:
+		s.trace = append(s.trace, stepDesc{s.step, op, "error: " + fmt.Sprint(out[1].Interface())})
+	default:
+		s.trace = append(s.trace, stepDesc{s.step, op, txt(out[0].Interface().(proto.Message))})
+	}
+	s.mon.Count("keyed-list")
+	k.drainAll() // a read announces nothing
+	for _, it := range k.items {
+		if !s.failed {
+			k.get(it, nil)
+		}
+	}
+	if !s.failed {
+		k.get(ghost, nil)
+	}
 }
 
 func runKeyedSession(t triple, sid sessionID, mon *lib.Monitor) (lines, verdicts []string) {
@@ -535,11 +706,24 @@ func runKeyedSession(t triple, sid sessionID, mon *lib.Monitor) (lines, verdicts
 		s.step = i
 		reportProgress(progress{Sid: sid, Step: i, Op: "next", Trace: tailTrace(s.trace, 12)})
 		ls := live()
-		x := s.r.Intn(20)
+		x := s.r.Intn(23)
 		if len(ls) == 0 {
 			x = 0
 		}
 		switch {
+		case x >= 22:
+			// a collection-wide read between the writes: it changes no item
+			k.listAll(ghost)
+		case x >= 20:
+			// two overlapping writes, the earlier one held before it has changed anything
+			it := ls[s.r.Intn(len(ls))]
+			var other *item
+			for _, o := range ls {
+				if o != it {
+					other = o
+				}
+			}
+			k.window(it, other)
 		case x < 3:
 			if len(ls) < 3 && !extra.NoCreate {
 				k.create()
